@@ -13,8 +13,8 @@ STD_STOP = {
 }
 
 
-def flatten(circ, qmap=None, out=None, phase=None):
-    """returns (list of (name, qubits tuple, operation), accumulated global phase)"""
+def flatten(circ, qmap=None, out=None, phase=None, stop=None):
+    """returns (list of (name, qubits tuple, operation), accumulated global phase); stop(op) -> name keeps op unopened"""
     if out is None:
         out = []
     if qmap is None:
@@ -26,7 +26,10 @@ def flatten(circ, qmap=None, out=None, phase=None):
         op = inst.operation
         qs = [qmap[circ.find_bit(q).index] for q in inst.qubits]
         name = op.name
-        if name in STD_STOP or op.definition is None:
+        kept = stop(op) if stop is not None else None
+        if kept:
+            out.append((kept, tuple(qs), op))
+        elif name in STD_STOP or op.definition is None:
             out.append((name, tuple(qs), op))
         elif isinstance(op, ControlledGate) and getattr(op, 'base_gate', None) is not None \
                 and op.base_gate.name in ('unitary',):
@@ -34,7 +37,7 @@ def flatten(circ, qmap=None, out=None, phase=None):
         elif isinstance(op, ControlledGate) and name.startswith('c') and name[1:] in STD_STOP:
             out.append((name, tuple(qs), op))
         else:
-            flatten(op.definition, qs, out, phase)
+            flatten(op.definition, qs, out, phase, stop)
     return out, phase[0]
 
 
